@@ -116,10 +116,16 @@ fn conv(ty: &str, v: &Value, cm: &CodeMap) -> Option<Result<(), usize>> {
         "VMVOS" => r(Vec::<BTreeMap<String, Vec<Option<S>>>>::try_from_json(v, cm)),
         "VVVU" => r(Vec::<Vec<Vec<U>>>::try_from_json(v, cm)),
         "BVB" => r(Box::<Vec<B>>::try_from_json(v, cm).map(|b| *b)),
+        // Box at the root and BELOW it (converted at a non-zero offset)
+        "XVB" => r(Box::<Vec<B>>::try_from_json(v, cm)),
+        "VXB" => r(Vec::<Box<B>>::try_from_json(v, cm)),
+        "MXB" => r(BTreeMap::<String, Box<B>>::try_from_json(v, cm)),
+        "VXVB" => r(Vec::<Box<Vec<B>>>::try_from_json(v, cm)),
+        "VOXMXN" => r(Vec::<Option<Box<BTreeMap<String, Box<N>>>>>::try_from_json(v, cm)),
         _ => None,
     }
 }
-pub const CONV_TYPES: [&str; 14] = ["VB", "VS", "VU", "VN", "VVB", "VOB", "OVB", "MB", "MVB", "VMB", "MMN", "VMVOS", "VVVU", "B"];
+pub const CONV_TYPES: [&str; 19] = ["VB", "VS", "VU", "VN", "VVB", "VOB", "OVB", "MB", "MVB", "VMB", "MMN", "VMVOS", "VVVU", "B", "XVB", "VXB", "MXB", "VXVB", "VOXMXN"];
 
 pub fn exec(rest: &str, out: &mut Out) -> (String, bool) {
     let a: Vec<&str> = rest.split(' ').collect();
@@ -200,6 +206,7 @@ fn gen_typed(rng: &mut Rng, ty: &[u8], plant: &mut i64, s: &mut String) {
             for i in 0..n { if i > 0 { s.push(','); } s.push_str(*rng.pick(&["\"a\":", "\"b\" : ", "\"a\":", "\"\\u0063\": "][..])); gen_typed(rng, &ty[1..], plant, s); }
             s.push('}');
         }
+        b'X' => gen_typed(rng, &ty[1..], plant, s),
         _ => s.push_str("null"),
     }
 }
